@@ -172,11 +172,50 @@ func (g *ugmGen) mutateConf(prev *UgmQueue) *UgmQueue {
 	var depths []int
 	ugmAllQueues(&c, 0, func(q *UgmQueue, d int) { qs = append(qs, q); depths = append(depths, d) })
 	edits := 1 + rng.Intn(3)
+	// compound reloads: several edits hit the same queue (e.g. the wild card value changes and a
+	// named limit is added or dropped for somebody who is already tracked there)
+	same := rng.Chance(45)
+	if same && edits < 2 {
+		edits = 2
+	}
+	target := rng.Intn(len(qs))
 	for e := 0; e < edits; e++ {
 		i := rng.Intn(len(qs))
+		if same {
+			i = target
+		}
 		q := qs[i]
 		scale := 24 >> depths[i]
-		switch rng.Intn(9) {
+		kind := rng.Intn(11)
+		if same && e == 0 && rng.Chance(50) {
+			kind = 9 + rng.Intn(2) // start with a changed wild card value
+		}
+		switch kind {
+		case 9: // change the value of the user wild card (add one when there is none)
+			found := false
+			for k := range q.Limits {
+				if len(q.Limits[k].Users) == 1 && q.Limits[k].Users[0] == "*" {
+					q.Limits[k].Max, q.Limits[k].MaxApps = g.genMax(scale)
+					found = true
+				}
+			}
+			if !found {
+				m, a := g.genMax(scale)
+				q.Limits = append(q.Limits, UgmLimit{Users: []string{"*"}, Max: m, MaxApps: a})
+			}
+		case 10: // change the value of the group wild card, or of one named group
+			found := false
+			for k := range q.Limits {
+				if len(q.Limits[k].Groups) == 1 && (q.Limits[k].Groups[0] == "*" || rng.Chance(40)) && len(q.Limits[k].Users) == 0 {
+					q.Limits[k].Max, q.Limits[k].MaxApps = g.genMax(scale)
+					found = true
+					break
+				}
+			}
+			if !found && len(q.Limits) > 0 {
+				k := rng.Intn(len(q.Limits))
+				q.Limits[k].Max, q.Limits[k].MaxApps = g.genMax(scale)
+			}
 		case 0: // drop all limits of the queue
 			q.Limits = nil
 		case 1: // drop one limit object
